@@ -11,7 +11,7 @@ from sa.exc import CANCELLED
 from sa.flow import Interp, TestAtom, call_of
 
 CLAIM = {
-    "text": "Decides the structural mechanisms without which no chunking other than 'one packet per read' can round-trip: (rem) every incremental / buffered deserializer generator and every helper it delegates to hands back a remainder that is data-dependent on the accumulating reader state after the frame (never a constant, except in the two tabled cases), also on its IncrementalDeserializeError exits; (inj) both stream consumers detach the parked generator before resuming it, re-park it only on the need-more-data exit, and store the returned remainder as the new buffer before returning a packet; (tbl) in each framing serializer the writer and all readers use the same framing datum (separator attribute, newline literal, packet size attribute); (scan) the two separator scanners search only when at least one separator length of unsearched data exists, resume at buflen + k - seplen with k <= 1 (never skipping a position where a separator straddling two reads could start, never a negative offset), advance past a match by exactly the separator length, and agree with each other on these facts. (copy) what a buffered deserializer hands to the user-level deserialize() is a copy of the frame, never a view of the re-used receive buffer; (esc) the JSON framer's escape predicate walks back through the whole run of backslashes in a loop that toggles/counts only on the escape byte and stops at the first other byte (no constant look-back), and the quote case consults it on exactly the prefix that ends at the quote. The buffered consumer's count of saved remainder bytes is handed to the parser exactly once (cleared before anything adds to it again and before every exit); the JSON framer's end-of-frame test holds for every non-positive enclosure count (closers decrement unconditionally); every text conversion in a serializer with a configured encoding names that attribute. The stapled (composite) serializer's dispatch constructs, for every (sent, received) class pair, the class its @overload declares; below the serializers the asyncio protocol's copy-out paths conserve bytes and the asynchronous receivers never hold a packet across a cancellable suspension point (rules shared from C10). Round 4: a buffer that is compacted in place is copied out before the move on every path; a buffer lent to the event loop is withdrawn before the callback returns (lend / withdraw typestate of C10).",
+    "text": "Decides the structural mechanisms without which no chunking other than 'one packet per read' can round-trip: (rem) every incremental / buffered deserializer generator and every helper it delegates to hands back a remainder that is data-dependent on the accumulating reader state after the frame (never a constant, except in the two tabled cases), also on its IncrementalDeserializeError exits; (inj) both stream consumers detach the parked generator before resuming it, re-park it only on the need-more-data exit, and store the returned remainder as the new buffer before returning a packet; (tbl) in each framing serializer the writer and all readers use the same framing datum (separator attribute, newline literal, packet size attribute); (scan) the two separator scanners search only when at least one separator length of unsearched data exists, resume at buflen + k - seplen with k <= 1 (never skipping a position where a separator straddling two reads could start, never a negative offset), advance past a match by exactly the separator length, and agree with each other on these facts. (copy) what a buffered deserializer hands to the user-level deserialize() is a copy of the frame, never a view of the re-used receive buffer; (esc) the JSON framer's escape predicate walks back through the whole run of backslashes in a loop that toggles/counts only on the escape byte and stops at the first other byte (no constant look-back), and the quote case consults it on exactly the prefix that ends at the quote. The buffered consumer's count of saved remainder bytes is handed to the parser exactly once (cleared before anything adds to it again and before every exit); the JSON framer's end-of-frame test holds for every non-positive enclosure count (closers decrement unconditionally); every text conversion in a serializer with a configured encoding names that attribute. The stapled (composite) serializer's dispatch constructs, for every (sent, received) class pair, the class its @overload declares; below the serializers the asyncio protocol's copy-out paths conserve bytes and the asynchronous receivers never hold a packet across a cancellable suspension point (rules shared from C10). Round 4: a buffer that is compacted in place is copied out before the move on every path; a buffer lent to the event loop is withdrawn before the callback returns (lend / withdraw typestate of C10). Round 5: create_deserializer_buffer() returns a fresh allocation on every call (never an object kept in an attribute or cache); the JSON splitter measures the frame, not the buffered data, against the limit (C07.early).",
     "note": "Trusted: bytes.find semantics; the serializers' one-shot serialize/deserialize are inverse on valid data. Not decided: byte-level equality of the delivered packets over all chunkings; the JSON raw parser's bracket/quote/escape tracking (value level).",
     "technique": "def-use / data-dependence closures, linear-form normalisation of index expressions, typestate by abstract interpretation for the consumers, sibling comparison of extracted fact tuples",
 }
